@@ -214,6 +214,40 @@ def rule_K1(prog, fixture=False):
             if escapes:
                 res.add("K1:cache-ref-escape:%s" % fkey(f), VIOLATED, "%s:%d" % (prog.rel(f.file), n.line), f.short,
                         "a reference into the cache (%s) is %s: after eviction of that key it dangles" % (n.text(), escapes), func=f.name)
+    # K4: every way of reading a stored value refreshes its recency (otherwise the LRU silently degrades to FIFO)
+    for cn, cj in sorted(prog.classes.items()):
+        if not cn.startswith("dsplib::LRUCache<"):
+            continue
+        list_f = [f_["name"] for f_ in cj["fields"] if "list<" in f_["ctype"]]
+        for g in sorted([g for g in prog.functions.values() if g.cls == cn and g.kind == "method" and not g.get("implicit")], key=lambda g: g.line):
+            ret = g.get("ret") or ""
+            if ret in ("void", "bool", "int", "unsigned long", "size_t") or not ret:
+                continue
+            key = "K1:recency:%s::%s" % (cn, g.qn.rsplit("::", 1)[-1])
+            where = "%s:%d" % (prog.rel(g.file), g.line)
+            refresh = False
+            for n in g.walk():
+                if n.is_call() and n.callee and n.call_object() is not None:
+                    o = n.call_object().strip_all()
+                    nm = (n.callee.get("qn") or "").rsplit("::", 1)[-1]
+                    if o.k == "MemberExpr" and o.decl and o.decl.get("n") in list_f and nm in ("splice", "push_front", "emplace_front"):
+                        refresh = True
+            if refresh:
+                res.add(key, DISCHARGED, where, g.short, "a lookup that returns a stored value moves the entry to the front of the recency list")
+            else:
+                res.add(key, VIOLATED, where, g.short,
+                        "returns a stored value (%s) without touching the recency list: entries found through it are evicted in "
+                        "insertion order, so the cache no longer retains the most recently used plans" % ret)
+    # K5: plans are cached by the two LRU caches only
+    for sk, sv in sorted(prog.statics.items(), key=lambda kv: (kv[1]["file"], kv[1]["line"])):
+        ct = sv["ctype"]
+        if "LRUCache<" in ct or sv["file"].endswith("coverage.cc"):
+            continue
+        if re.search(r"dsplib::(BaseFftPlan[CR]|FftPlanR?|IfftPlanR?|CztPlan|Pow2FftPlan|FactorFFTPlanR?|PrimesFft[CR]|RealFftPlan|SmallFftPow2[CR])\b", ct) and not sv["const"]:
+            res.add("K1:extra-plan-cache:%s@%s" % (sv["name"], sv.get("func", "")), VIOLATED, "%s:%d" % (prog.rel(sv["file"]), sv["line"]),
+                    "%s in %s" % (sv["name"], sv.get("func")),
+                    "a plan is kept in static storage (%s) outside the LRU caches: the thread retains more plans than "
+                    "DSPLIB_FFT_CACHE_SIZE and later results depend on which lengths were requested before" % sv["type"])
     # holders keep shared ownership
     holders = 0
     for cn, cj in sorted(prog.classes.items()):
